@@ -408,6 +408,19 @@ func (c *Control) RunSchedule(tokens []Token) SchedResult {
 				c.mu.Unlock()
 				break
 			}
+			if s != nil && s.status == "lockwait" {
+				// the request is blocked on a lock whose holder is parked: the imposed order cannot be had at this point.  The holder
+				// is advanced by ONE gate and the token tried again, so that the schedule is realised as closely as the code's own
+				// blocking allows (the blocked request goes ahead the moment the holder lets go, not after the holder has finished).
+				if o, held := c.owner[s.key]; held && o != t.Rid {
+					if os := c.reqs[o]; os != nil && os.status == "parked" {
+						res.Deviations = append(res.Deviations, fmt.Sprintf("%s@%s:%s waits for %s: holder %s advanced past %s", t.Rid, t.Site, t.Key, s.key, o, os.site))
+						c.releaseLocked(o)
+						c.mu.Unlock()
+						continue
+					}
+				}
+			}
 			if s == nil || s.status != "parked" {
 				st := "unknown"
 				if s != nil {
